@@ -16,21 +16,14 @@ Notation sigb := (sigb p).
 Notation WF := (WF p).
 Notation MarkRel := (MarkRel p).
 Notation Inv := (Inv p).
-Notation InvW := (InvW p).
 Notation Lcur := (Lcur p).
 Notation Lclean := (Lclean p).
-Notation MemoOKc := (MemoOKc p).
-Notation MemoOKv := (MemoOKv p).
+Notation Rest := (Rest p).
+Notation Frame := (Frame p).
 Notation cur := (cur p).
 Notation UpClosed := (UpClosed p).
 
 (* ---------------------------------------------------------------- views *)
-(* what the invariant reads of a node *)
-Definition view_eq (n n' : node) : Prop :=
-  sval n' = sval n /\ st n' = st n /\ cache n' = cache n /\ rlog n' = rlog n /\ srcs n' = srcs n.
-
-Lemma view_eq_refl n : view_eq n n. Proof. unfold view_eq; intuition. Qed.
-
 Lemma cur_view s s' j : sval (getn s' j) = sval (getn s j) -> cache (getn s' j) = cache (getn s j) ->
   cur s' j = cur s j.
 Proof. intros H1 H2. unfold GraphInvariant.cur, cache_val. rewrite H1, H2. reflexivity. Qed.
@@ -52,38 +45,54 @@ Lemma L1_ext s s' i :
   rlog (getn s' i) = rlog (getn s i) -> srcs (getn s' i) = srcs (getn s i) -> L1 s i -> L1 s' i.
 Proof. unfold L1. intros -> ->. auto. Qed.
 
-Lemma MemoOKc_ext s s' i :
-  st (getn s' i) = st (getn s i) -> cache (getn s' i) = cache (getn s i) ->
-  rlog (getn s' i) = rlog (getn s i) ->
+(* a resting node keeps its clauses when its own view is unchanged, the values it logged are
+   still the current ones and the memos it logged as Clean still are *)
+Lemma Rest_ext s s' i :
+  nview_eq (getn s i) (getn s' i) ->
+  (forall j v, In (j, v, true) (rlog (getn s i)) -> cur s' j = cur s j) ->
   (forall j v, In (j, v, true) (rlog (getn s i)) -> memob j = true ->
                st (getn s j) = Clean -> st (getn s' j) = Clean) ->
-  MemoOKc s i -> MemoOKc s' i.
+  Rest s i -> Rest s' i.
 Proof.
-  unfold GraphInvariant.MemoOKc. intros Hs Hc Hr Hj. rewrite Hs, Hc, Hr.
-  destruct (cache (getn s i)); auto. intros H Hcl. eapply Lclean_ext; eauto.
+  intros V Hc Hcl (R1 & R2 & R3 & R4 & R5).
+  assert (Vr : rlog (getn s' i) = rlog (getn s i)) by apply V.
+  assert (Vs : srcs (getn s' i) = srcs (getn s i)) by apply V.
+  split; [eapply L1_ext; eauto|]. split; [eapply uncached_ok_view; eauto|].
+  split; [|split].
+  - intros Hn. eapply Lcur_ext; eauto. apply R3. eapply needs_cur_view; eauto.
+  - intros Hn. eapply Lclean_ext; eauto. apply R4. eapply needs_clean_view; eauto.
+  - intros Hn. assert (Hs : since (getn s' i) = since (getn s i)) by apply V.
+    rewrite Hs. apply R5. eapply will_run_view; eauto.
 Qed.
 
-Lemma MemoOKv_ext s s' i :
-  st (getn s' i) = st (getn s i) -> cache (getn s' i) = cache (getn s i) ->
-  rlog (getn s' i) = rlog (getn s i) ->
-  (forall j v, In (j, v, true) (rlog (getn s i)) -> cur s' j = cur s j) ->
-  MemoOKv s i -> MemoOKv s' i.
+Lemma Frame_ext t s s' k :
+  rlog (getn s' k) = rlog (getn s k) -> srcs (getn s' k) = srcs (getn s k) ->
+  (memob k = true -> st (getn s k) <> Clean -> st (getn s' k) <> Clean) ->
+  (effb k = true -> edirty (getn s k) = false -> edirty (getn s' k) = false) ->
+  (forall j v, In (j, v, true) (rlog (getn s k)) -> cur s' j = cur s j) ->
+  (forall j v, In (j, v, true) (rlog (getn s k)) -> memob j = true ->
+               st (getn s j) = Clean -> st (getn s' j) = Clean) ->
+  Frame t s k -> Frame t s' k.
 Proof.
-  unfold GraphInvariant.MemoOKv. intros Hs Hc Hr Hj H Hn Hd. rewrite Hs in Hd. rewrite Hc in Hn.
-  eapply Lcur_ext; eauto.
+  intros Vr Vs Vst Vd Hc Hcl (F1 & F2 & F3 & F4 & F5 & F6 & F7).
+  split; [eapply Lcur_ext; eauto|]. split; [eapply Lclean_ext; eauto|].
+  split; [intros x; rewrite Vs, Vr; auto|]. split; [exact F4|]. split; [exact F5|].
+  split; [intros Hm; apply Vst; auto|intros He; apply Vd; auto].
 Qed.
 
 (* ---------------------------------------------------------------- not-Clean is upward closed *)
-Lemma InvW_UpClosed stk t s : InvW stk t s -> UpClosed s.
+Lemma Inv_UpClosed stk t s : Inv stk t s -> UpClosed s.
 Proof.
   intros I y x Hy Hn Hx Hmx Hc.
   destruct (in_dec Nat.eq_dec x stk) as [Hin|Hin].
-  - eapply inv_run_nc; eauto.
-  - pose proof (inv_memo_c _ _ _ _ I x Hmx Hin) as HM. unfold GraphInvariant.MemoOKc in HM.
-    destruct (cache (getn s x)); [|destruct HM; congruence].
+  - destruct (inv_frame _ _ _ _ I x Hin) as (_&_&_&_&_&Hnc&_). apply (Hnc Hmx Hc).
+  - destruct (inv_rest _ _ _ _ I x Hin) as (R1 & R2 & _ & R4 & _).
+    destruct (memob_decl p x Hmx) as (cm & e & Hd).
+    unfold uncached_ok, GraphInvariant.needs_clean, needs_clean_n in *. rewrite Hd in *.
+    destruct (cache (getn s x)) eqn:Ec; [|destruct (R2 eq_refl); congruence].
     assert (Hsrc : In y (srcs (getn s x))) by (eapply wf_sub_src; eauto; apply I).
-    rewrite (inv_l1 _ _ _ _ I x Hin) in Hsrc. apply in_tracked_of in Hsrc as (v & Hv).
-    apply Hn. eapply HM; eauto.
+    rewrite R1 in Hsrc. apply in_tracked_of in Hsrc as (v & Hv).
+    apply Hn. eapply R4; eauto. split; auto. congruence.
 Qed.
 
 (* ---------------------------------------------------------------- contexts *)
@@ -123,7 +132,7 @@ Record PullRel (b : nat) (stk : list nat) (ex : option nat) (s s' : state) : Pro
      subs (getn s' y) = subs (getn s y);
   pr_eff : forall i, efirst (getn s' i) = efirst (getn s i) /\ epaused (getn s' i) = epaused (getn s i) /\
      ealive (getn s' i) = ealive (getn s i) /\ edone (getn s' i) = edone (getn s i) /\
-     emissed (getn s' i) = emissed (getn s i);
+     emissed (getn s' i) = emissed (getn s i) /\ epoll (getn s' i) = epoll (getn s i);
   pr_halted : halted s' = halted s
 }.
 
@@ -187,7 +196,7 @@ Proof.
     split; [apply S; auto|]. auto.
   - intros y _ _. destruct (mr_core p _ _ M y) as (_&_&_&H2&H3&_). auto.
   - intros y _. destruct (mr_core p _ _ M y) as (_&H0&H1&_). split; auto. split; auto. apply M.
-  - intros i. destruct (mr_core p _ _ M i) as (_&_&_&_&_&_&H1&H2&H3&H4&H5). auto.
+  - intros i. destruct (mr_core p _ _ M i) as (_&_&_&_&_&_&H1&H2&H3&H4&H5&H6). repeat split; assumption.
   - apply M.
 Qed.
 
@@ -198,7 +207,8 @@ Definition USpec (n : nat) (U : updater) : Prop :=
     U c j s = (s', ch) ->
     Inv stk t s' /\ PullRel (S j) stk None s s' /\
     subs (getn s' j) = subs (getn s j) /\
-    (memob j = true -> st (getn s' j) = Clean /\ cache (getn s' j) <> None).
+    (memob j = true -> st (getn s' j) = Clean /\ cache (getn s' j) <> None) /\
+    (ch = true -> forall k, In j (tracked_of (rlog (getn s' k))) -> since (getn s' k) <> []).
 
 Definition RSpec (n : nat) (R : reader) : Prop :=
   forall m c j s stk t s' v,
